@@ -176,12 +176,16 @@ inductive ErrClass
   | io
   | tooLong
   | marshal           -- json.Marshal failed
+  | other             -- an error of no recognised class
+  | ext               -- not an outcome of the code: the model needs a standard-library answer
+                      -- (float text, zone offset, unknown construct) that was not supplied
   deriving DecidableEq, Repr, Inhabited
 
 def ErrClass.name : ErrClass → String
   | .syntax => "syntax" | .cast => "cast" | .unsupportedImport => "unsupported-import"
   | .unsupportedExport => "unsupported-export" | .unsupportedFormat => "unsupported-format"
   | .pathNotFound => "path-not-found" | .io => "io" | .tooLong => "too-long" | .marshal => "marshal"
+  | .other => "other" | .ext => "EXT"
 
 /-- Result of an operation that Go may finish normally, with an error, or by panicking. -/
 inductive Outcome (α : Type)
